@@ -685,7 +685,18 @@ impl World {
 
     /// Execute one operation on the implementation and on the model.
     pub fn apply(&mut self, op: Op, observe: bool) -> Step {
-        assert!(!self.dead, "apply on dead world");
+        if self.dead {
+            // the subject panicked earlier in this history: nothing more can be executed on it
+            return Step {
+                op,
+                res: Res::Panic("world is dead (an earlier call of this history panicked)".into()),
+                findings: Vec::new(),
+                pre: None,
+                post: None,
+                log: Vec::new(),
+                calls_before: self.disk.calls(),
+            };
+        }
         self.set_clock();
         let calls_before = self.disk.calls();
         let pre = if observe { Some(self.disk.image()) } else { None };
